@@ -256,9 +256,19 @@ func init() {
 				continue
 			}
 			typ := c08Types[k][len(c08Types[k])-1]
+			type rr struct{ rom, ram uint8 }
+			var combos []rr
 			for code := uint8(0); code <= maxROMCode(k); code++ {
-				spec := cartSpec{typ, code, 3}
-				full := c.Thorough() || code == maxROMCode(k) || (code == 0 && k != ref.KMBC5)
+				combos = append(combos, rr{code, 3})
+			}
+			if k != ref.KMBC2 {
+				// the declared RAM size has nothing to do with ROM banking: the largest ROM again with no RAM and with 64 KiB
+				combos = append(combos, rr{maxROMCode(k), 0}, rr{maxROMCode(k), 5})
+			}
+			for _, cb := range combos {
+				code := cb.rom
+				spec := cartSpec{typ, code, cb.ram}
+				full := c.Thorough() || ((code == maxROMCode(k) || (code == 0 && k != ref.KMBC5)) && cb.ram == 3)
 				vals := c08Values(spec, full)
 				var evs []c08Ev
 				for _, a := range c08Addrs {
@@ -267,7 +277,7 @@ func init() {
 					}
 				}
 				explore.BFS(c.R, explore.BFSSpec[cartSpec, c08Ev, *c08Node]{
-					Name:   fmt.Sprintf("closure-%s-rom%d", k, code),
+					Name:   fmt.Sprintf("closure-%s-rom%d-ram%d", k, code, cb.ram),
 					Starts: []cartSpec{spec},
 					New:    func(s cartSpec) *c08Node { return &c08Node{newCartPair(s)} },
 					Save:   func(n *c08Node) any { return c08Snap{n.p.m.Map.VMBCSave(false), *n.p.mod} },
